@@ -28,18 +28,23 @@ type EnvFile struct {
 
 // MarshalYAML makes EnvFile implement yaml.Marshaler
 func (e EnvFile) MarshalYAML() (interface{}, error) {
-	if e.Required {
+	// the short syntax can only say: this path, required, default format
+	if e.Required && e.Format == "" {
 		return e.Path, nil
 	}
-	return map[string]any{
+	m := map[string]any{
 		"path":     e.Path,
 		"required": e.Required,
-	}, nil
+	}
+	if e.Format != "" {
+		m["format"] = e.Format
+	}
+	return m, nil
 }
 
 // MarshalJSON makes EnvFile implement json.Marshaler
 func (e *EnvFile) MarshalJSON() ([]byte, error) {
-	if e.Required {
+	if e.Required && e.Format == "" {
 		return json.Marshal(e.Path)
 	}
 	// Pass as a value to avoid re-entering this method and use the default implementation
